@@ -13,6 +13,7 @@ from rpv import families
 from rpv.checks.inproc_util import get_ip, sched_from_json, sched_json
 from rpv.gen import ALL_IN_TYPES, METHODS, OUT_TYPES, Profile, history
 from rpv.model import Model
+from rpv.workload import deepen
 from rpv.oracle.balance import is_valid
 from rpv.oracle.trace import check_taxable
 
@@ -103,7 +104,7 @@ def run_shard(ctx: Any) -> None:
     done = 0
     while done < share and (ctx.budget_s - ctx.time_left()) < ctx.budget_s * 0.75:
         rng = ctx.rng("case", index)
-        hist = history(rng, PROFILES[index % len(PROFILES)])
+        hist = history(rng, deepen(ctx, index, PROFILES[index % len(PROFILES)]))
         if is_valid(Model(hist)):
             _observe(ctx, ip, hist, {1970: rng.choice(METHODS)})
         else:
